@@ -21,7 +21,7 @@ ID = "C07"
 LEVEL = "fault_enumeration"
 LEVEL_TEXT = 'Fault enumeration relative to each explored run: every callback boundary plus seeded event indices and traced line steps are crash points; the activation is killed there and recovered from the durable store. Snapshot fidelity and immutability are exact comparisons; recovery is compared with the uninterrupted run.'
 LEVEL_NOTE = 'Crashes are observable only at actor calls and Python line boundaries inside lbfgsb/*; reference = separate uninterrupted runs of the same code; calibrated tolerance of DESIGN 7.2 for the continuation.'
-TECHNIQUE = 'deterministic simulation: crash injection at event/line indices, recovery from a simulated durable store'
+TECHNIQUE = 'deterministic simulation: crash injection at event/line indices, recovery from a simulated durable store; callbacks that overwrite their argument; evaluation budgets that run out during the explored run'
 DESIGN_REF = 'DESIGN.md 4.5, 7.2'
 BUDGET = {
     "quick": {"plans": 2000, "wall": 90, "chunk": 4},
